@@ -51,14 +51,14 @@ def run(ctx):
     rng = ctx.rng
     reqs, metas = [], []
     fam = schemas.family()
-    for si in range(ctx.budget(12, 50)):
+    for si in range(ctx.budget(24, 60)):
         info = fam[si % len(fam)] if si < len(fam) or rng.random() < 0.4 else schemas.random_schema(rng)
         schema = info.schema
         ctx.driver.add_schema(info)
         docs = [gen.gen_doc(rng, schema, budget=rng.choice([6, 12, 25])) for _ in range(ctx.budget(5, 10))]
         for d in docs:
             # primitive steps
-            for _ in range(ctx.budget(10, 30)):
+            for _ in range(ctx.budget(20, 40)):
                 if ctx.time_left() < 0:
                     break
                 step = gen.gen_step(rng, info, d, docs)
